@@ -243,6 +243,9 @@ func (fv *FV) specTerm(e *Env, cl *Clause, sc *specCtx) Term {
 		return tTrue
 	}
 	savedInfo, savedSpec := fv.info, fv.spec
+	if sc != nil {
+		sc.cl = cl
+	}
 	fv.info, fv.spec = cl.Info, sc
 	nErr := len(fv.specErrors)
 	v := fv.expr(e, cl.Expr)
@@ -646,6 +649,8 @@ func (fv *FV) checkFrame(ex *Exit, k int, at ast.Node) {
 				foot[l.comp] = append(foot[l.comp], l.ref)
 			}
 		case "elems":
+			// the order flag of the backing array belongs to the slice's footprint
+			foot[ordDetComp] = append(foot[ordDetComp], l.slice.T)
 			if isObjectType(l.typ) {
 				for _, c := range leafComps(l.typ) {
 					wholeComp[c] = true
